@@ -496,7 +496,7 @@ func parseMermaid(src string) (graph, error) {
 
 // ---- workload -----------------------------------------------------------------
 
-var hostileNames = []string{"has space", "quo\"te", "arrow->x", "lt<gt>", "amp&", "new\nline", "ünï", "semi;colon", "brace}", "[bracket]", "back\\slash", "dash-ed", "1starts-with-digit", "node", "graph", "50%done", "a%%b", "100%", "%s%d%v", "tab\there"}
+var hostileNames = []string{"has space", "quo\"te", "arrow->x", "lt<gt>", "amp&", "new\nline", "ünï", "semi;colon", "brace}", "[bracket]", "back\\slash", "dash-ed", "1starts-with-digit", "node", "graph", "50%done", "a%%b", "100%", "%s%d%v", "tab\there", "@", "@next-", "?"}
 
 // lookalikes: a character and the way some renderer spells it when escaping.
 var lookalikes = [][2]string{{"\"", "#quot;"}, {"\"", "\\\""}, {"<", "&lt;"}, {">", "&gt;"}, {"&", "&amp;"}, {"\n", "\\n"}, {"\"", "&quot;"}, {" ", "_"}, {"-", "_"}, {"#", "#35;"}, {"\"", "'"}}
